@@ -200,6 +200,21 @@ def regress_case(h, subj, pid, keys):
         shutil.rmtree(repo, ignore_errors=True)
 
 
+def stale_case(pid):
+    repo = make_copy()
+    try:
+        rc, out = run_check(pid, repo)
+        stale = [l.strip() for l in out.splitlines() if "no longer matches" in l]
+        if rc != 0:
+            return (f"stale:{pid}", "FAIL", f"{pid} exits {rc} on the unchanged tree")
+        if stale:
+            return (f"stale:{pid}", "FAIL", f"known finding(s) of {pid} no longer match: {stale[:3]}")
+        n = sum(1 for l in out.splitlines() if l.startswith("KNOWN-FINDING"))
+        return (f"stale:{pid}", "ok", f"{pid} passes on the unchanged tree and all {n} known finding(s) still match")
+    finally:
+        shutil.rmtree(repo, ignore_errors=True)
+
+
 def seed_case(name):
     d = os.path.join(VERIF, "seeded", name)
     meta = json.load(open(os.path.join(d, "meta.json")))
@@ -279,7 +294,7 @@ def main(args):
         for h, subj, pid, keys in fix_regressions():
             if "regress" in want or not want or any(h.startswith(x) or x.startswith(h) for x in named_regress):
                 jobs.append((regress_case, (h, subj, pid, keys)))
-    groups = {"regress", "benign", "corpus"}
+    groups = {"regress", "benign", "corpus", "stale"}
     named_corpus = {w[len("corpus:"):] for w in want if w.startswith("corpus:")}
     named_seeds = {w for w in want if w not in groups and not w.startswith("corpus:") and not w.startswith("regress:")}
     if not want or named_seeds or "seeds" in want:
@@ -297,6 +312,11 @@ def main(args):
             if named_corpus and not ("corpus" in want or "benign" in want or not want) and name not in named_corpus:
                 continue
             jobs.append((corpus_case, (name,)))
+    if not want or "stale" in want:
+        # every `known` entry of known_findings.json still matches a violation on the unchanged tree: an entry that silently stops
+        # matching (a rule changed, a word search satisfied by an unrelated name) is a finding lost, not a finding repaired
+        for pid in sorted({f_["property"] for f_ in json.load(open(os.path.join(VERIF, "known_findings.json")))["findings"] if f_["status"] == "known"}):
+            jobs.append((stale_case, (pid,)))
     make_copy_head()
     results = [None] * len(jobs)
     if jobs_n == 1:
